@@ -207,6 +207,8 @@ def _get_unused_imports(ast_tree: ast.Module) -> Collection[str]:
     imports = tracing.get_imported_names(ast_tree)
 
     names = {node.id for node in core.walk(ast_tree, ast.Name(ctx=ast.Load))}
+    # x += 1 reads x as well
+    names.update(node.target.id for node in core.walk(ast_tree, ast.AugAssign(target=ast.Name)))
     for node in core.walk(ast_tree, ast.Attribute):
         try:
             full_name = _recursive_attribute_name(node)
